@@ -321,3 +321,23 @@ package keeper
 //@   ensures @collected_when_accepted err == nil && hit && accumulate ==> len(wrkchains) == len(old(wrkchains)) + 1 && wrkchains[len(old(wrkchains))] == v
 //@   ensures @earlier_items_kept forall j int :: {wrkchains[j]} 0 <= j && j < len(old(wrkchains)) ==> wrkchains[j] == old(wrkchains)[j]
 //@   ensures @nothing_collected_otherwise !(err == nil && hit && accumulate) ==> len(wrkchains) == len(old(wrkchains))
+
+// ================================================================ genesis export helpers (C15): read-only listings
+// (what they enumerate is not under contract; the export contract below states what the document does with them)
+//@ func Keeper.IterateWrkChains(ctx, cb)
+//@   inline
+//@ func Keeper.IterateWrkChainBlockHashesReverse(ctx, wrkchainID, cb)
+//@   inline
+//@ func Keeper.GetAllWrkChains(ctx) (wrkChains)
+//@   props C15
+//@   pure
+//@   loop IterateWrkChains.0: invariant it_store == wrk_store && wrk_store == old(wrk_store)
+//@ func Keeper.GetAllWrkChainBlockHashesForGenesisExport(ctx, wrkchainID) (wrkChainBlocks)
+//@   props C15
+//@   pure
+//@   loop IterateWrkChainBlockHashesReverse.0: invariant it_store == wrk_store && wrk_store == old(wrk_store)
+// copy() on overlapping slices is outside the generator's subset: assumed contract on this four-line helper
+//@ func prependBlock(x, y) (r)
+//@   trusted shifts the list by one with the builtin copy and puts y first; touches no state
+//@   pure
+//@   ensures len(r) == len(x) + 1 && r[0] == y
